@@ -4,6 +4,7 @@ import A2Verif.Model.C09Imd
 import A2Verif.Model.C09Td0
 import A2Verif.Model.C09Dot2mg
 import A2Verif.Model.C09Woz
+import A2Verif.Model.C09Meta
 /-!
 Driver family `c09`.  Requests (blank separated tokens, bytes as hex, empty = `-`):
 
@@ -22,6 +23,9 @@ Driver family `c09`.  Requests (blank separated tokens, bytes as hex, empty = `-
      with `<comment>` = `<stamp6hex>:<texthex>`
                                           → `<hex of toBytesNormal> <rt>`
 * `c09 mgfinal <hdr64> <commentlen> <creatorlen>` → hex of the header `to_bytes` writes | `bad-request`
+* `c09 woz2save <hex>`                   → `<offset after load> <offset after to_bytes> <length> <crc field> stable|unstable reparse-ok|…`
+                                            of the WOZ2 object model (`fromBytes2`, `toBytes2` twice) | `err` | `panic`
+* `c09 metaput <type> </key/path> <hex of the UTF-8 value>` → `refused` | `skipped` (read-only) | `ok <hex of the leaf get_metadata shows>`
 * `c09 wozchunks <hex>`                  → chunk walk of `get_next_chunk` from offset 12:
                                             `<id>@<ptr>+<size>[!]` … (`!` = unknown id)
 -/
@@ -132,7 +136,7 @@ def parseTd0Tracks : Nat → List String → Option (List C09Td0.Track)
       match parseTd0Secs ns rest with
       | some (ss, rest') =>
         match parseTd0Tracks n rest' with
-        | some ts => some ({ nsec := ns, cyl := c, head := h, crc := C09Crc.crc16 0 [ns, c, h] % 256, sectors := ss } :: ts)
+        | some ts => some ({ nsec := ns, cyl := c, head := h, crc := 0, sectors := ss } :: ts)
         | none => none
       | none => none
     | _, _, _ => none
@@ -147,17 +151,18 @@ def td0Img (toks : List String) : String :=
       | [st, tx] =>
         match ofHexFast st, ofHexFast tx with
         | some s, some t =>
-          some (some { crc := C09Crc.crc16 0 (C09Crc.le16 (t.length % 65536) ++ s ++ t), len := t.length, stamp := s, text := t })
+          -- the request carries the notes as held in memory (decoded)
+          some (some { crc := [0, 0], len := [0, 0], stamp := s, text := t })
         | _, _ => none
       | _ => none
     match ofHexFast hdr, comment, ntrk.toNat? with
     | some h, some c, some n =>
       match parseTd0Tracks n rest with
       | some ts =>
-        let x : C09Td0.Image := { hdr := h, comment := c, tracks := ts }
+        let x : C09Td0.Image := { hdr := h, hcrc := [0, 0], comment := c, tracks := ts }
         let bs := C09Td0.toBytesNormal x
         let rt := match C09Td0.fromBytesNormal bs with
-          | some y => if C09Td0.toBytesNormal y = bs then "rt-ok" else "rt-differs"
+          | some y => if y = C09Td0.canon x ∧ C09Td0.toBytesNormal y = bs then "rt-ok" else "rt-differs"
           | none => "rt-err"
         toHexFast bs ++ " " ++ rt
       | none => "bad-request"
@@ -207,6 +212,34 @@ def handle (toks : List String) : String :=
         toHexFast x.finalize.toBytes
       | none => "bad-request"
     | _, _, _ => "bad-request"
+  | ["woz2save", h] =>
+    -- load a WOZ2 file into the object model, serialise it, serialise the resulting object again
+    match ofHexFast h with
+    | some bs =>
+      match C09Woz.fromBytes2 bs with
+      | some x =>
+        match C09Woz.toBytes2 x with
+        | some (b, y) =>
+          let again := match C09Woz.toBytes2 y with
+            | some (b2, y2) => if b2 = b ∧ y2 = y then "stable" else "unstable"
+            | none => "panic"
+          let re := if C09Woz.fromBytes2 b = some y then "reparse-ok" else "reparse-differs"
+          s!"{x.off} {y.off} {b.length} {C09Woz.rd32At b 8} {again} {re}"
+        | none => "panic"
+      | none => "err"
+    | none => "bad-request"
+  | ["metaput", typ, key, h] =>
+    match ofHexFast h with
+    | some val =>
+      let path := (key.splitOn "/").filter (· ≠ "")
+      match C09Meta.put (C09Meta.table typ) [] path val with
+      | .refused => "refused"
+      | .skipped => "skipped"
+      | .stored st =>
+        match C09Meta.get (C09Meta.table typ) st path with
+        | some v => "ok " ++ toHexFast v
+        | none => "ok ?"
+    | none => "bad-request"
   | ["wozchunks", h] =>
     match ofHexFast h with
     | some bs => C09Woz.showWalk (C09Woz.walk bs)
